@@ -9,7 +9,7 @@ from spyne import Application, Service, rpc, ComplexModel
 from spyne.model.primitive import (Integer, UnsignedInteger, Integer8, Integer16, Integer32, Integer64,
     UnsignedInteger8, UnsignedInteger16, UnsignedInteger32, UnsignedInteger64, Boolean, Unicode,
     Date, Time, DateTime, Decimal, Mandatory as M)
-from spyne.model.complex import Array
+from spyne.model.complex import Array, XmlAttribute
 from spyne.protocol.xml import XmlDocument
 from spyne.protocol.json import JsonDocument
 from spyne.protocol.http import HttpRpc
@@ -240,6 +240,36 @@ def msgpack_str_native(sx, p):
     if out.accepted:
         return sx.And(ok, sx.eq(out.value, text))
     return sx.And(sx.Not(ok), is_client_validation_fault(out.fault))
+
+
+class _ReqAttr(ComplexModel):
+    __namespace__ = 'tns'
+    rid = XmlAttribute(Integer(min_occurs=1))
+    opt = XmlAttribute(Integer)
+    name = Unicode
+
+
+@harness('C05', functions=['spyne.protocol.xml.XmlDocument.complex_from_element'],
+         bounds={'document': 'an object with a mandatory XML attribute (min_occurs=1), an optional one and an element; each attribute present '
+                             '(symbolic one-digit value) or absent'})
+def xml_required_attribute(sx, p):
+    """occurrence constraints count attributes too: the object is accepted iff the mandatory attribute is there, and its
+    value arrives"""
+    has_rid = sx.choose('mandatory attribute', ['present', 'absent']) == 'present'
+    has_opt = sx.choose('optional attribute', ['present', 'absent']) == 'present'
+    rid, opt = sx.digits('rid', 1), sx.digits('opt', 1)
+    attrib = {}
+    if has_rid:
+        attrib['rid'] = rid
+    if has_opt:
+        attrib['opt'] = opt
+    elt = mk_element(sx, '{tns}t', attrib=attrib, children=[mk_element(sx, '{tns}name', text='x')])
+    out = run_soft(lambda: XML.from_element(CTX, _ReqAttr, elt))
+    sx.observe('accepted', out.accepted)
+    if out.accepted:
+        return sx.And(has_rid, sx.eq(out.value.rid, sx.digits_value(rid)),
+                      sx.eq(out.value.opt, sx.digits_value(opt)) if has_opt else out.value.opt is None)
+    return (not has_rid) and is_client_validation_fault(out.fault)
 
 
 # ---------------------------------------------------------------- xsi:nil / nullability
